@@ -5,7 +5,6 @@ import (
 	"fmt"
 	"math"
 	"net/http"
-	"net/url"
 	"sort"
 	"strings"
 	"time"
@@ -123,13 +122,6 @@ func canonHeader(h http.Header) string {
 	}
 	sort.Strings(l)
 	return strings.Join(l, ",")
-}
-
-func canonURL(u *url.URL) string {
-	if u == nil {
-		return ""
-	}
-	return u.String()
 }
 
 func init() {
@@ -697,14 +689,7 @@ func init() {
 	})
 	register(spec[upload.Slot]{name: "upload.Slot",
 		gen: func(g *gen) upload.Slot {
-			urls := []string{"", "https://example.net/up/a%20b?x=1&y=<2>", "http://[::1]:8080/p", "https://example.net/é"}
-			var s upload.Slot
-			if u := urls[g.intn(len(urls))]; u != "" {
-				s.PutURL, _ = url.Parse(u)
-			}
-			if u := urls[g.intn(len(urls))]; u != "" {
-				s.GetURL, _ = url.Parse(u)
-			}
+			s := upload.Slot{PutURL: g.url(), GetURL: g.url()}
 			names := []string{"Authorization", "Cookie", "Expires", "cookie", "X-Other", "authorization"}
 			for n := g.count(4); n > 0; n-- {
 				if s.Header == nil {
